@@ -22,7 +22,7 @@ try:
     from scipy.misc import factorial
 except ImportError:
     from scipy.special import factorial
-from scipy.special import beta, gamma, gammaln, hermitenorm
+from scipy.special import beta, gamma, gammaln, gammasgn, hermitenorm
 
 # Legacy repr printing from numpy.
 
@@ -94,9 +94,13 @@ def Q(dim, dfd=np.inf):
     coeffs = np.around(hermitenorm(j - 1).c)
     if np.isfinite(m):
         for L in range((j - 1) // 2 + 1):
+            a = (m + 2 - j + 2 * L) / 2.
             f = np.exp(gammaln((m + 1) / 2.)
-                       - gammaln((m + 2 - j + 2 * L) / 2.)
+                       - gammaln(a)
                        - 0.5 * (j - 1 - 2 * L) * (np.log(m / 2.)))
+            # gammaln is log|Gamma|: restore the sign of 1/Gamma(a) for a < 0
+            # (at the poles a = 0, -1, ... gammaln is +inf and f is already 0)
+            f *= gammasgn(a) if np.isfinite(gammaln(a)) else 0.
             coeffs[2 * L] *= f
     return np.poly1d(coeffs)
 
